@@ -571,11 +571,17 @@ func rootOf(v ssa.Value) ssa.Value {
 func c04GuardDiscipline(e *Env, rule string) {
 	weights := map[int64]int{}
 	n := 0
-	for _, f := range e.P.SrcFuncs(false) {
+	kinds := map[string]bool{}
+	seenFn := map[*ssa.Function]bool{}
+	for _, f := range e.P.AllSrcFuncs(false) {
 		if !strings.HasPrefix(core.FnName(f), "net/blockwise.") {
 			continue
 		}
 		for _, g := range core.WithAnon(f) {
+			if seenFn[g] {
+				continue
+			}
+			seenFn[g] = true
 			core.InstrsOwn(g, func(in ssa.Instruction) {
 				c, ok := in.(ssa.CallInstruction)
 				if !ok {
@@ -593,6 +599,7 @@ func c04GuardDiscipline(e *Env, rule string) {
 					return
 				}
 				n++
+				kinds[core.CalleeName(c)] = true
 				if k, isK := core.ConstInt(w); isK {
 					weights[k]++
 				} else {
@@ -601,7 +608,7 @@ func c04GuardDiscipline(e *Env, rule string) {
 			})
 		}
 	}
-	e.R.Check(len(weights) == 1 && weights[-1] == 0 && n >= 4, rule, "net/blockwise:guard-weight", "-", fmt.Sprintf("all %d semaphore operations of the reassembly guard use one constant weight", n), fmt.Sprintf("the reassembly guard is created / acquired / released with different weights %v: it excludes nobody or can never be taken", weights))
+	e.R.Check(len(weights) == 1 && weights[-1] == 0 && n >= 3 && len(kinds) >= 3, rule, "net/blockwise:guard-weight", "-", fmt.Sprintf("all %d semaphore operations of the reassembly guard use one constant weight", n), fmt.Sprintf("the reassembly guard is created / acquired / released with different weights %v: it excludes nobody or can never be taken", weights))
 
 	q := bw + ".getCachedReceivedMessage"
 	f := e.fn(rule, q)
@@ -610,7 +617,7 @@ func c04GuardDiscipline(e *Env, rule string) {
 	}
 	// the release function handed out on success that is also what the error exits run (called inside the function itself)
 	var closeFn ssa.Value
-	listReleased := false
+	listReleased, listCalled := false, false
 	for _, ret := range core.ReturnsOf(f) {
 		if len(ret.Results) == 3 && core.IsNilConst(core.RetVal(ret, 2)) {
 			if mk, ok := core.Resolve(core.RetVal(ret, 1)).(*ssa.MakeClosure); ok {
@@ -625,21 +632,32 @@ func c04GuardDiscipline(e *Env, rule string) {
 					if fn, _ := mk.Fn.(*ssa.Function); fn != nil && len(core.CallsNamedDeep(fn, "golang.org/x/sync/semaphore.Weighted.Release")) > 0 {
 						listReleased = true // it releases the elements of a list itself
 					}
+					if fn, _ := mk.Fn.(*ssa.Function); fn != nil && callsListElements(fn) {
+						listCalled = true // it runs the release functions collected in a list
+					}
 				}
 			}
 		}
 	}
 	badReg, badErr, na := "", "", 0
-	for _, a := range core.CallsNamed(f, "golang.org/x/sync/semaphore.Weighted.Acquire") {
-		ac, isCall := a.(*ssa.Call)
-		if !isCall {
-			continue
-		}
+	for _, ac := range guardAcquisitions(f) {
 		na++
 		root := rootOf(core.Arg(ac, 0))
+		// the release function an acquiring helper hands back (nil for a plain Acquire)
+		handed := func(v ssa.Value) bool {
+			ex, ok := core.Unwrap(v).(*ssa.Extract)
+			if !ok {
+				if ld, isLd := v.(*ssa.UnOp); isLd && ld.Op == token.MUL {
+					if src := errSourceVal(ld); src != nil {
+						ex, ok = src.(*ssa.Extract)
+					}
+				}
+			}
+			return ok && ex.Tuple == ssa.Value(ac) && isFuncType(ex.Type())
+		}
 		onNil := func(i *ssa.If, br bool) bool {
 			ev, nilBranch, ok := core.ErrNilEdge(i)
-			if ok && errSource(ev) == ac {
+			if ok && (errSource(ev) == ac || errSourceDirect(ev) == ac) {
 				return br == nilBranch
 			}
 			return true
@@ -672,11 +690,18 @@ func c04GuardDiscipline(e *Env, rule string) {
 				if _, isIdx := x.Addr.(*ssa.IndexAddr); isIdx && rootOf(x.Val) == root && listReleased {
 					return true
 				}
+				// the release function handed back by the acquiring helper goes into the list the returned function runs
+				if _, isIdx := x.Addr.(*ssa.IndexAddr); isIdx && handed(x.Val) && listCalled {
+					return true
+				}
 			}
 			return false
 		}
 		w := (&core.PathQuery{Fn: f, From: ac, EdgeOK: onNil, Stop: registers, Target: func(in ssa.Instruction) bool {
 			ret, ok := in.(*ssa.Return)
+			if ok && len(ret.Results) == 3 && handed(core.RetVal(ret, 1)) {
+				return false // the helper's release function is what the caller gets
+			}
 			return ok && len(ret.Results) == 3 && core.IsNilConst(core.RetVal(ret, 2))
 		}}).Find()
 		if w != nil {
@@ -1555,11 +1580,16 @@ func replaceStoresUnlessDeleted(e *Env, rule string) {
 		return
 	}
 	var cb *ssa.Call
-	core.InstrsOwn(f, func(in ssa.Instruction) {
-		if c, ok := in.(*ssa.Call); ok {
-			if p, isP := core.Resolve(c.Call.Value).(*ssa.Parameter); isP && len(c.Call.Args) == 2 {
-				_ = p
+	core.Instrs(f, func(in ssa.Instruction) { // including a locked-section helper shared with the sibling operations
+		if c, ok := in.(*ssa.Call); ok && len(c.Call.Args) == 2 && c.Call.StaticCallee() == nil && !c.Call.IsInvoke() {
+			if p, isP := core.Resolve(c.Call.Value).(*ssa.Parameter); isP && p.Parent() == f {
 				cb = c
+				return
+			}
+			for _, alt := range core.ResolveIn(f, c.Call.Value) {
+				if p, isP := alt.(*ssa.Parameter); isP && p.Parent() == f {
+					cb = c
+				}
 			}
 		}
 	})
@@ -1692,6 +1722,9 @@ func responseDecisionReached(e *Env, rule string) {
 		w := (&core.PathQuery{Fn: f, From: hand, Target: core.IsReturn, Stop: func(in ssa.Instruction) bool {
 			switch x := in.(type) {
 			case *ssa.Call:
+				if core.CalleeName(x) == "context.Context.Err" {
+					return true // the connection-closed exit spelled `ctx.Err() != nil` instead of a non-blocking select on Done()
+				}
 				return strings.HasSuffix(core.CalleeName(x), "pool.Message.IsModified")
 			case *ssa.Select:
 				return true // the connection-closed exit of the datagram dispatcher
@@ -1904,6 +1937,18 @@ func clampBeforeUse(e *Env, rule string) {
 	core.Instrs(f, func(in ssa.Instruction) {
 		c, ok := in.(*ssa.Call)
 		if !ok {
+			return
+		}
+		if h := c.Call.StaticCallee(); h != nil && c.Parent() == f && core.IsAbsorbed(h) && h.Signature.Recv() == nil {
+			// an offset / block-number helper that takes the exponent: the exponent handed to it is a use
+			for _, a := range c.Call.Args {
+				if core.IsNamed(a.Type(), "net/blockwise.SZX") {
+					n++
+					if !isClamped(a) {
+						bad = "at " + e.pos(c) + " the size exponent handed to " + h.Name() + " is not the one clamped to the local maximum"
+					}
+				}
+			}
 			return
 		}
 		switch core.CalleeName(c) {
@@ -2171,4 +2216,107 @@ func valueLeaves(v ssa.Value) []ssa.Value {
 	}
 	walk(v, 0)
 	return out
+}
+
+// guardAcquisitions: the places in f's own body where the reassembly guard is taken – a direct Acquire, or a call of an
+// unexported helper that acquires its receiver/first argument and hands back (release func, error): the helper's body is
+// checked here (its non-nil function result releases the semaphore it acquired), the call is the acquisition.
+func guardAcquisitions(f *ssa.Function) []*ssa.Call {
+	const acq, rel = "golang.org/x/sync/semaphore.Weighted.Acquire", "golang.org/x/sync/semaphore.Weighted.Release"
+	var out []*ssa.Call
+	core.InstrsOwn(f, func(in ssa.Instruction) {
+		c, ok := in.(*ssa.Call)
+		if !ok {
+			return
+		}
+		if core.CalleeName(c) == acq {
+			out = append(out, c)
+			return
+		}
+		h := c.Call.StaticCallee()
+		if h == nil || !core.IsAbsorbed(h) || len(core.CallsNamed(h, acq)) == 0 {
+			return
+		}
+		sig := h.Signature.Results()
+		if sig.Len() != 2 || !isFuncType(sig.At(0).Type()) {
+			out = append(out, core.CallsNamed(h, acq)[0].(*ssa.Call)) // acquires without handing back a release function: its Acquire stands for itself
+			return
+		}
+		releases := false
+		for _, r := range core.ReturnsOf(h) {
+			if mk, isMk := core.Resolve(core.RetVal(r, 0)).(*ssa.MakeClosure); isMk {
+				if fn, _ := mk.Fn.(*ssa.Function); fn != nil && len(core.CallsNamedDeep(fn, rel)) > 0 {
+					releases = true
+					continue
+				}
+			}
+			if !core.IsNilConst(core.RetVal(r, 0)) || core.IsNilConst(core.RetVal(r, 1)) {
+				releases = false
+				break
+			}
+		}
+		if releases {
+			out = append(out, c)
+		} else {
+			out = append(out, core.CallsNamed(h, acq)[0].(*ssa.Call))
+		}
+	})
+	return out
+}
+
+func isFuncType(t types.Type) bool {
+	_, ok := t.Underlying().(*types.Signature)
+	return ok
+}
+
+// callsListElements: fn calls function values it loads out of a slice (runs a list of release functions).
+func callsListElements(fn *ssa.Function) bool {
+	found := false
+	for _, g := range core.WithAnon(fn) {
+		core.InstrsOwn(g, func(in ssa.Instruction) {
+			c, ok := in.(ssa.CallInstruction)
+			if !ok || c.Common().IsInvoke() || c.Common().StaticCallee() != nil {
+				return
+			}
+			if ld, isLd := c.Common().Value.(*ssa.UnOp); isLd && ld.Op == token.MUL {
+				if _, isIdx := ld.X.(*ssa.IndexAddr); isIdx {
+					found = true
+				}
+			}
+		})
+	}
+	return found
+}
+
+// errSourceVal: the value last stored (in the load's block) to the cell ld reads.
+func errSourceVal(ld *ssa.UnOp) ssa.Value {
+	a := core.CellOf(ld.X)
+	if a == nil {
+		return nil
+	}
+	var last ssa.Value
+	for _, in := range ld.Block().Instrs {
+		if in == ssa.Instruction(ld) {
+			break
+		}
+		if st, ok := in.(*ssa.Store); ok && core.CellOf(st.Addr) == a {
+			last = st.Val
+		}
+	}
+	return last
+}
+
+// errSourceDirect: the call whose result tuple v is extracted from, without looking into an absorbed helper.
+func errSourceDirect(v ssa.Value) *ssa.Call {
+	if ld, ok := v.(*ssa.UnOp); ok && ld.Op == token.MUL {
+		if src := errSourceVal(ld); src != nil {
+			v = src
+		}
+	}
+	if ex, ok := core.Unwrap(v).(*ssa.Extract); ok {
+		if c, ok := ex.Tuple.(*ssa.Call); ok {
+			return c
+		}
+	}
+	return nil
 }
